@@ -1,3 +1,201 @@
 //! Positive controls for the rule templates: each `bad_*` item violates a template, its `good_*`
 //! twin satisfies it. The checker asserts on every run that the bad twin fires and the good twin passes.
 #![allow(dead_code, unused)]
+use std::collections::{BTreeSet, HashMap};
+
+pub struct Msg {
+    pub a: Vec<u64>,
+    pub b: Vec<u64>,
+    pub c: Option<f64>,
+    pub d: u64,
+}
+pub struct Out {
+    pub a: Vec<u64>,
+    pub b: Vec<u64>,
+    pub c: f64,
+}
+pub struct Store {
+    pub items: Vec<u64>,
+    pub removed: Vec<u64>,
+    pub other: u64,
+}
+
+// ---- T-COVER
+pub fn cover_bad(m: &Msg) -> u64 {
+    m.a.len() as u64 + m.d + m.c.map_or(0, |x| x as u64)
+}
+pub fn cover_good(m: &Msg) -> u64 {
+    m.a.len() as u64 + m.b.len() as u64 + m.d + m.c.map_or(0, |x| x as u64)
+}
+
+// ---- T-CARRY
+pub fn carry_bad(m: Msg) -> Out {
+    Out { a: m.a, b: Vec::new(), c: m.c.unwrap_or(0.0) }
+}
+pub fn carry_good(m: Msg) -> Out {
+    Out { a: m.a, b: m.b, c: m.c.unwrap_or(0.0) }
+}
+
+// ---- T-GUARD: Ok only when `a` is empty
+pub fn guard_bad(m: &Msg) -> Result<u64, String> {
+    if m.a.is_empty() {
+        return Err("unexpected".to_string());
+    }
+    Ok(m.d)
+}
+pub fn guard_good(m: &Msg) -> Result<u64, String> {
+    if !m.a.is_empty() {
+        return Err("not empty".to_string());
+    }
+    Ok(m.d)
+}
+// short-circuit conjunction: both conjuncts must guard
+pub fn guard_and_bad(m: &Msg) -> Result<u64, String> {
+    if !(m.a.is_empty() || m.b.is_empty()) {
+        return Err("not empty".to_string());
+    }
+    Ok(m.d)
+}
+pub fn guard_and_good(m: &Msg) -> Result<u64, String> {
+    if !(m.a.is_empty() && m.b.is_empty()) {
+        return Err("not empty".to_string());
+    }
+    Ok(m.d)
+}
+
+// ---- T-MUSTCALL
+fn validate(m: &Msg) -> Result<(), String> {
+    if m.d == 0 { Err("zero".to_string()) } else { Ok(()) }
+}
+pub fn mustcall_bad(m: &Msg) -> Result<u64, String> {
+    if m.c.is_some() {
+        validate(m)?;
+    }
+    Ok(m.d)
+}
+pub fn mustcall_good(m: &Msg) -> Result<u64, String> {
+    validate(m)?;
+    Ok(m.d)
+}
+
+// ---- T-ERRFLOW
+pub fn errflow_bad(t: &HashMap<u64, f64>, k: u64) -> Result<f64, String> {
+    let v = t.get(&k).copied().unwrap_or(0.0);
+    Ok(v)
+}
+pub fn errflow_good(t: &HashMap<u64, f64>, k: u64) -> Result<f64, String> {
+    let v = t.get(&k).ok_or_else(|| "missing".to_string())?;
+    Ok(*v)
+}
+pub fn errflow_match_bad(t: &HashMap<u64, f64>, k: u64) -> Result<f64, String> {
+    match t.get(&k) {
+        Some(v) => Ok(*v),
+        None => Ok(0.0),
+    }
+}
+pub fn errflow_match_good(t: &HashMap<u64, f64>, k: u64) -> Result<f64, String> {
+    match t.get(&k) {
+        Some(v) => Ok(*v),
+        None => Err("missing".to_string()),
+    }
+}
+
+// ---- T-LOOPMUST
+pub fn loopmust_bad(m: &Msg) -> Vec<u64> {
+    let mut out = Vec::new();
+    for x in &m.a {
+        if *x == 7 {
+            continue;
+        }
+        out.push(*x);
+    }
+    out
+}
+pub fn loopmust_good(m: &Msg) -> Vec<u64> {
+    let mut out = Vec::new();
+    for x in &m.a {
+        out.push(*x);
+    }
+    out
+}
+pub fn loopmust_restricted_bad(m: &Msg) -> Vec<u64> {
+    let mut out = Vec::new();
+    for x in m.a.iter().skip(1) {
+        out.push(*x);
+    }
+    out
+}
+
+// ---- T-ATOMIC
+impl Store {
+    pub fn atomic_bad(&mut self, id: u64) -> Result<(), String> {
+        self.items.push(id);
+        let pos = self.removed.iter().position(|x| *x == id).ok_or_else(|| "missing".to_string())?;
+        self.removed.remove(pos);
+        Ok(())
+    }
+    pub fn atomic_good(&mut self, id: u64) -> Result<(), String> {
+        let pos = self.removed.iter().position(|x| *x == id).ok_or_else(|| "missing".to_string())?;
+        self.removed.remove(pos);
+        self.items.push(id);
+        Ok(())
+    }
+    pub fn only_bad(&mut self, id: u64) {
+        self.items.push(id);
+        self.other = 0;
+    }
+    pub fn only_good(&mut self, id: u64) {
+        self.items.push(id);
+    }
+}
+
+// ---- T-TABLE / T-BRANCHFX
+pub fn table_bad(s: &str) -> Result<u8, String> {
+    match s {
+        "LO" => Ok(1),
+        "UP" => Ok(2),
+        _ => Ok(0),
+    }
+}
+pub fn table_good(s: &str) -> Result<u8, String> {
+    match s {
+        "LO" => Ok(1),
+        "UP" => Ok(2),
+        "FX" => Ok(3),
+        _ => Err(format!("unknown {s}")),
+    }
+}
+
+// ---- T-CONST / feasibility rule shape
+pub fn feas_bad(v: f64, eq: bool) -> bool {
+    if eq { v.abs() <= 1e-6 } else { v < 1e-5 }
+}
+pub fn feas_good(v: f64, eq: bool) -> bool {
+    if eq { v.abs() < 1e-6 } else { v < 1e-6 }
+}
+
+// ---- accumulator shape
+pub fn acc_bad(cs: &[f64], xs: &[f64]) -> f64 {
+    let mut sum = 0.0;
+    for i in 0..cs.len() {
+        sum -= cs[i] * xs[i];
+    }
+    sum
+}
+pub fn acc_good(cs: &[f64], xs: &[f64]) -> f64 {
+    let mut sum = 0.0;
+    for i in 0..cs.len() {
+        sum += cs[i] * xs[i];
+    }
+    sum
+}
+
+// ---- T-DELEG
+#[derive(Clone)]
+pub struct Lin(pub f64);
+impl std::ops::Add for Lin { type Output = Lin; fn add(self, r: Lin) -> Lin { Lin(self.0 + r.0) } }
+impl std::ops::Neg for Lin { type Output = Lin; fn neg(self) -> Lin { Lin(-self.0) } }
+pub struct SubBad(pub Lin);
+pub struct SubGood(pub Lin);
+impl std::ops::Sub<Lin> for SubBad { type Output = Lin; fn sub(self, r: Lin) -> Lin { self.0 + r } }
+impl std::ops::Sub<Lin> for SubGood { type Output = Lin; fn sub(self, r: Lin) -> Lin { self.0 + (-r) } }
